@@ -1,8 +1,134 @@
 import JrsVerif.Common.J
+import JrsVerif.Model.JsonW
 
 namespace JrsVerif.Drv.C05
-open Lean JrsVerif.J
+open Lean JrsVerif.J JrsVerif.Json JrsVerif.Escape JrsVerif.Generated.Escape
 
-def handle (_op : String) (_j : Json) : Option Json := none
+def hexNib (c : Char) : Option Nat :=
+  if '0' ≤ c ∧ c ≤ '9' then some (c.toNat - 48)
+  else if 'a' ≤ c ∧ c ≤ 'f' then some (c.toNat - 87)
+  else if 'A' ≤ c ∧ c ≤ 'F' then some (c.toNat - 55)
+  else none
+
+partial def unhexGo : List Char → List UInt8 → Option (List UInt8)
+  | [], acc => some acc.reverse
+  | a :: b :: r, acc =>
+    match hexNib a, hexNib b with
+    | some x, some y => unhexGo r (UInt8.ofNat (x * 16 + y) :: acc)
+    | _, _ => none
+  | _, _ => none
+
+def unhex (s : String) : Option (List UInt8) := unhexGo s.toList []
+
+def hexDig (n : Nat) : Char := if n < 10 then Char.ofNat (48 + n) else Char.ofNat (87 + n)
+
+def hex (bs : List UInt8) : String :=
+  String.ofList (bs.foldr (fun b acc => hexDig (b.toNat / 16) :: hexDig (b.toNat % 16) :: acc) [])
+
+def hexNat (s : String) : Option Nat :=
+  s.toList.foldl (fun acc c => match acc, hexNib c with
+    | some a, some x => some (a * 16 + x)
+    | _, _ => none) (some 0)
+
+/-- value encoding: null | bool | {"n":bits16,"t":tokhex} | {"s":hex} | {"a":[..]} |
+    {"o":[[keyhex, hidden, v]..]} | "f" ; collects the number-token table on the way -/
+partial def parseMV (j : Json) : Option (MV × List (Nat × List UInt8)) :=
+  match j with
+  | .null => some (.null, [])
+  | .bool b => some (.bool b, [])
+  | .str "f" => some (.func, [])
+  | _ =>
+    match str? j "n", str? j "t" with
+    | some b, some t => do
+      let bits ← hexNat b
+      let tok ← unhex t
+      some (.num bits, [(bits, tok)])
+    | _, _ =>
+      match str? j "s" with
+      | some s => do some (.str (← unhex s), [])
+      | none =>
+        match arr? j "a" with
+        | some xs => do
+          let rs ← xs.toList.mapM parseMV
+          some (.arr (rs.map (·.1)), (rs.map (·.2)).flatten)
+        | none =>
+          match arr? j "o" with
+          | some fs => do
+            let rs ← fs.toList.mapM (fun f => match f with
+              | .arr #[.str k, .bool h, v] => do
+                let kb ← unhex k
+                let (mv, tb) ← parseMV v
+                some ((kb, h, mv), tb)
+              | _ => none)
+            some (.obj (rs.map (·.1)), (rs.map (·.2)).flatten)
+          | none => none
+
+def fmtOf (tb : List (Nat × List UInt8)) (d : Nat) : List UInt8 :=
+  match tb.find? (fun p => p.1 == d) with
+  | some p => p.2
+  | none => []
+
+def parseMode (j : Json) : Option (Option Opts) := do  -- none inside = ToStringFormat
+  let k ← str? j "k"
+  match k with
+  | "minify" => some (some minifyOpts)
+  | "default" => some (some defaultOpts)
+  | "cli" => some (some (cliOpts (← nat? j "n")))
+  | "std" => do
+    let i ← unhex (← str? j "indent")
+    let nl ← unhex (← str? j "nl")
+    let sep ← unhex (← str? j "sep")
+    some (some (stdOpts i nl sep))
+  | "tostring" => some none
+  | _ => none
+
+def outJson : Option (List UInt8) → Json
+  | some bs => obj [("out", .str (hex bs))]
+  | none => obj [("err", .str "func")]
+
+/-- executable form of `NumOK` for one token -/
+def numOKb (tok : List UInt8) (bits : Nat) : Bool :=
+  (match tok with | b :: _ => b == 0x2D || isDigit b | [] => false) &&
+  tok.all numChar && (numVal tok == some bits)
+
+def handle (op : String) (j : Json) : Option Json :=
+  match op with
+  | "json.esc" =>
+    match (str? j "s").bind unhex with
+    | none => some (bad "json.esc: parse")
+    | some s =>
+      some (obj [("model", outJson (escape s)), ("spec", outJson (some (specEscape s)))])
+  | "json.unesc" =>
+    -- observation: the reference string decoder reads the implementation's token back as `s`
+    match (str? j "s").bind unhex, (str? j "text").bind unhex with
+    | some s, some t =>
+      some (obj [("observed", .bool (pString t == some (s, []) && t.all (fun b => 0x20 ≤ b)))])
+    | _, _ => some (bad "json.unesc: parse")
+  | "json.write" =>
+    match (val? j "v").bind parseMV, (val? j "mode").bind parseMode with
+    | some (v, tb), some mode =>
+      let r := match mode with
+        | some o => manifest o (fmtOf tb) v
+        | none => toStringManifest (fmtOf tb) v
+      some (obj [("model", outJson r)])
+    | _, _ => some (bad "json.write: parse")
+  | "json.read" =>
+    -- observation: the reference reader maps the implementation's text to the canonical value
+    match (val? j "v").bind parseMV, (str? j "text").bind unhex with
+    | some (v, _), some t =>
+      let ok := match canon v, read t with
+        | some a, some b => J.beq a b
+        | _, _ => false
+      some (obj [("observed", .bool ok)])
+    | _, _ => some (bad "json.read: parse")
+  | "json.num" =>
+    match (str? j "bits").bind hexNat, (str? j "tok").bind unhex with
+    | some b, some t => some (obj [("observed", .bool (numOKb t b))])
+    | _, _ => some (bad "json.num: parse")
+  | "json.indep" =>
+    -- independent readers run inside the harness; the expected answer is constant
+    let e := match (val? j "expect") with | some e => e | none => Json.null
+    some (obj [("spec", e)])
+  | _ => none
 
 end JrsVerif.Drv.C05
